@@ -66,8 +66,16 @@ def run_one(patch, prop, expect=None, keep=False, scope="quick"):
 
 def _check(prop, repo, scope):
     from blue import main as M
-    rc, ctx, new, hit = M.run_property(prop, "quick", repo=repo, quiet=True, write_evidence=False, scope=scope)
-    print(json.dumps({"rc": rc, "violations": [{"rule": v.rule, "key": v.key, "msg": v.message, "loc": v.loc} for v in new]}))
+    props = M.PROPS if prop == "all" else [prop]
+    vio = []
+    rc = 0
+    for p in props:
+        if not os.path.exists(os.path.join(VERIF, "rules", p + ".py")):
+            continue
+        r, ctx, new, hit = M.run_property(p, "quick", repo=repo, quiet=True, write_evidence=False, scope=scope)
+        rc = rc or r
+        vio += [{"rule": v.rule, "key": v.key, "msg": v.message, "loc": v.loc} for v in new]
+    print(json.dumps({"rc": rc, "violations": vio}))
 
 
 def collect(dirpath):
@@ -98,6 +106,19 @@ def main(argv):
         r = run_one(argv[1], argv[2], argv[3] if len(argv) > 3 else None)
         print(json.dumps(r, indent=1))
         return 0 if r["result"] == "detected" else 1
+    if argv[0] == "benign":
+        # behaviour-preserving refactors: every property's rules must stay silent
+        from concurrent.futures import ThreadPoolExecutor
+        items = collect(argv[1])
+        with ThreadPoolExecutor(max_workers=3) as ex:
+            results = list(ex.map(lambda it: run_one(it[0], "all", None), items))
+        bad = 0
+        for r in results:
+            ok = r["result"] == "missed"
+            bad += 0 if ok else 1
+            print("%-8s %-50s %s" % ("silent" if ok else "ALARM", r["patch"], ",".join(r.get("keys", [])) or r.get("detail", "")[-300:]))
+        print("silent on %d / %d benign refactors" % (len(results) - bad, len(results)))
+        return 0 if bad == 0 else 1
     if argv[0] == "run":
         from concurrent.futures import ThreadPoolExecutor
         items = collect(argv[1])
